@@ -137,6 +137,13 @@ def run_shard(shard, tier, seed, wd, res):
         for _ in range(60 if tier == "quick" else 400):
             k = rng.randrange(2, 24)
             s.op(gp + ".batch_norm", V.lst([rng.choice(allreps) for _ in range(k)]))
+        # long batches (implementations may work in blocks): mixed representations, identities sprinkled in
+        for nb in ((1030, 2100) if tier == "quick" else (1030, 2100, 4100, 9000)):
+            big = []
+            for i_ in range(nb):
+                r_ = rng.random()
+                big.append(rng.choice(allreps) if r_ < 0.85 else V.proj(g, *G.identity_rep(g, G.rand_fe(g, rng))))
+            s.op(gp + ".batch_norm", V.lst(big))
         # batches of library-produced values
         regs = [s.op(gp + ".add", rng.choice(allreps), rng.choice(allreps)) for _ in range(12)]
         for _ in range(20):
